@@ -9,7 +9,7 @@ namespace Raft
 namespace Node
 
 structure StepClosed (Inv : Node → Prop) : Prop extends Closed Inv where
-  begin : ∀ (s : Node) ra ord, Inv s → Inv (s.begin ra ord)
+  begin : ∀ (s : Node) ra (ord : List (List Nat)), Inv s → Inv (s.begin ra ord)
   rpcReply : ∀ (s : Node) r, Inv s → Inv (s.withRpcReply r)
   ret : ∀ (s : Node) r, Inv s → Inv (s.ret r)
   setRole : ∀ (s : Node) r, Inv s → Inv (s.setRole r)
@@ -76,12 +76,17 @@ theorem transferReply_inv (s : Node) (r : String) (hs : Inv s) : Inv (s.transfer
 
 theorem tryTransfer_inv (s : Node) (hs : Inv s) : Inv s.tryTransfer := by
   unfold Node.tryTransfer; dsimp only
+  have hp := h.popOrder s hs
   repeat' split
   all_goals first
     | exact hs
+    | exact hp
     | exact h.panic _ _ hs
+    | exact h.panic _ _ hp
     | exact h.ldr _ _ hs
+    | exact h.ldr _ _ hp
     | exact h.ldr _ _ (h.panic _ _ hs)
+    | exact h.ldr _ _ (h.panic _ _ hp)
 
 theorem onTransfer_inv (s : Node) (t g : Nat) (hs : Inv s) : Inv (s.onTransfer t g) := by
   unfold Node.onTransfer; dsimp only
@@ -418,7 +423,7 @@ theorem handle_inv (s : Node) (op : Op) (hs : Inv s) : Inv (s.handle op) := by
   case shutdown => exact h.shutdown_inv _ hs
 
 /-- **Composition theorem**: a closed predicate is preserved by every step. -/
-theorem step_inv (s : Node) (op : Op) (ra ord : List Nat) (hs : Inv s) : Inv (s.step op ra ord) := by
+theorem step_inv (s : Node) (op : Op) (ra : List Nat) (ord : List (List Nat)) (hs : Inv s) : Inv (s.step op ra ord) := by
   unfold Node.step
   dsimp only
   have h1 := h.handle_inv _ op (h.begin _ ra ord hs)
